@@ -31,7 +31,7 @@ func (i *interpreter) recordViolation(tag, msg string) {
 		m[k] = v
 	}
 	ps.viols = append(ps.viols, Violation{Tag: tag, Msg: msg, Known: known, Model: m, Inputs: append([]Input{}, ps.inputs...),
-		Trace: append([]Decision{}, ps.trace...), Obs: append([]string{}, ps.obs...), Named: copyNamed(ps.named)})
+		Trace: append([]Decision{}, ps.trace...), Obs: append([]string{}, ps.obs...), Named: copyNamed(ps.named), Sched: append([]int{}, ps.yieldLog...)})
 }
 
 func copyNamed(m map[string]uint64) map[string]uint64 {
@@ -146,7 +146,13 @@ func init() {
 	p("vPermuteMaps", func(fr *frame, a []value) value { fr.i.ps.permute = a[0].(bool); return nil })
 	p("vPoolChoice", func(fr *frame, a []value) value { fr.i.ps.poolChoice = a[0].(bool); return nil })
 	p("vSched", func(fr *frame, a []value) value { fr.i.sched.enabled = a[0].(bool); return nil })
-	p("vYield", func(fr *frame, a []value) value { fr.i.yield(fr.primName(a[0])); return nil })
+	p("vYield", func(fr *frame, a []value) value {
+		i := fr.i
+		i.yield("h:" + fr.primName(a[0]))
+		// the order in which threads pass harness-visible yield points (for native replay)
+		i.ps.yieldLog = append(i.ps.yieldLog, i.sched.cur.id)
+		return nil
+	})
 	p("vSpawn", func(fr *frame, a []value) value {
 		fr.i.spawn(fr, nil, a[0], nil)
 		return nil
@@ -155,7 +161,7 @@ func init() {
 		i := fr.i
 		i.blockUntil(func() bool {
 			for _, t := range i.sched.threads[1:] {
-				if !t.done && !t.daemon {
+				if !t.done && !t.daemon && !t.background {
 					return false
 				}
 			}
